@@ -489,12 +489,19 @@ fn check_respelled_ids(acc: &mut Acc) {
         *c = c.to_ascii_uppercase();
     }
     let late_upper: String = late_upper.into_iter().collect();
-    let spellings: Vec<(&str, String)> = vec![("upper case", ida.to_uppercase()), ("first letter in upper case", one_upper), ("a letter after the prefix in upper case", late_upper)];
+    // ... and the identifier the same key material has when it is described without (with another)
+    // hash-algorithm list: another identifier, of a key the layout does not list
+    let a_no_list = PublicKey::from_ed25519(a.public().as_bytes().to_vec()).map(|k| id_of(&k)).unwrap_or_default();
+    let a_one_alg = PublicKey::from_ed25519_with_keyid_hash_algorithms(a.public().as_bytes().to_vec(), Some(vec!["sha256".to_string()])).map(|k| id_of(&k)).unwrap_or_default();
+    let spellings: Vec<(&str, String)> = vec![("upper case", ida.to_uppercase()), ("first letter in upper case", one_upper), ("a letter after the prefix in upper case", late_upper), ("the id of the same key material described without a hash-algorithm list", a_no_list), ("the id of the same key material described with the list [sha256]", a_one_alg)];
     let dir = util::fresh_dir("c12r");
     let lay = world::sign_layout(world::layout(vec![world::step("s", 1, &[a])], vec![], &[a], world::far_future()), &[owner]);
     let link = world::block_value(&world::sign_link(world::link("s", world::arts(&[]), world::arts(&[("p", 1)])), &[a]));
     for (sn, sp) in &spellings {
         if *sp == ida {
+            continue;
+        }
+        if sp.len() != 64 {
             continue;
         }
         // (1) the identifier survives reading and writing as a string
@@ -556,7 +563,7 @@ pub fn run(tier: Tier) -> i32 {
     check_tables(&mut acc, if tier.thorough() { 3 } else { 2 });
     crate::envprobe::judge(&mut acc, "C12:", &mut c.extra);
     c.acc = acc;
-    c.rule = "keys: 6 Ed25519, 3 ECDSA P-256, RSA 2048 x2 / 3072 / 4096 / 8192 (the largest supported; public key only) / 2048 with public exponents 0x800001 and 0x80000001; construction paths: PKCS#8 private key, standard DER and PEM SubjectPublicKeyInfo, raw bytes, 64-byte keypair, JSON with/without a (lying) keyid member and a private member, each with hash-algorithm list absent/default/one/reordered where the path takes one; every RSA material also under the other PSS digest (PKCS#8, SPKI, JSON) in the same process; for each: key id == reference preimage hash, equality across paths, JSON round trip, SPKI re-export identity and re-import. Reference signatures: RSA 2048/3072/4096/8192 x both PSS digests x import path (DER, PEM, JSON): the OpenSSL-made signature of the same digest verifies, those of the other digest, of another key and with one bit flipped do not. Re-spelled identifiers: A's genuine signature under A's id in upper case / with one letter in upper case (inside and after the 8-character prefix), filed under the proper name, the re-spelled prefix and both, end to end and through Metablock::verify; an identifier is written back as read. Key tables: every sequence of <= N appended (label, key) entries over labels {id(A), id(B), zeros, id(A) in upper case, A's 8-character prefix + zeros, id(A) with the last digit changed} x keys {A, B, A and B rebuilt without a hash-algorithm list}, parsed, then used end to end with links signed by B".into();
+    c.rule = "keys: 6 Ed25519, 3 ECDSA P-256, RSA 2048 x2 / 3072 / 4096 / 8192 (the largest supported; public key only) / 2048 with public exponents 0x800001 and 0x80000001; construction paths: PKCS#8 private key, standard DER and PEM SubjectPublicKeyInfo, raw bytes, 64-byte keypair, JSON with/without a (lying) keyid member and a private member, each with hash-algorithm list absent/default/one/reordered where the path takes one; every RSA material also under the other PSS digest (PKCS#8, SPKI, JSON) in the same process; for each: key id == reference preimage hash, equality across paths, JSON round trip, SPKI re-export identity and re-import. Reference signatures: RSA 2048/3072/4096/8192 x both PSS digests x import path (DER, PEM, JSON): the OpenSSL-made signature of the same digest verifies, those of the other digest, of another key and with one bit flipped do not. Re-spelled identifiers: A's genuine signature under A's id in upper case / with one letter in upper case (inside and after the 8-character prefix), (and under the ids the same key material has with no / another hash-algorithm list), filed under the proper name, the re-spelled prefix and both, end to end and through Metablock::verify; an identifier is written back as read. Key tables: every sequence of <= N appended (label, key) entries over labels {id(A), id(B), zeros, id(A) in upper case, A's 8-character prefix + zeros, id(A) with the last digit changed} x keys {A, B, A and B rebuilt without a hash-algorithm list}, parsed, then used end to end with links signed by B".into();
     c.bound_completed = format!("all keys x all paths; tables of <= {} entries", if tier.thorough() { 3 } else { 2 });
     c.assume("reference key-id preimage = securesystemslib (self-tested against Python-made key ids in C11)");
     c.assume("standard SPKI encodings built by template and byte-compared with OpenSSL-generated fixtures");
